@@ -450,6 +450,16 @@ pub fn run(fam: &str, t: &mut Toks) -> Option<R<String>> {
             let mut c = p_case(t)?;
             Ok(o_steps(&mut c))
         })()),
+        "o_out" => Some((|| {
+            // the result predicted by a theorem about the model (hex-encoded text): `o_out <expected> <case>`
+            let exp = String::from_utf8(t.bytes()?).map_err(|e| e.to_string())?;
+            if t.tok()? != "prog" {
+                return Err("o_out family".into());
+            }
+            let mut c = p_case(t)?;
+            let got = run_case(&mut c);
+            Ok(if got == exp { "ok".into() } else { format!("FAIL got `{got}` but the theorem predicts `{exp}`") })
+        })()),
         "o_gas" => Some((|| {
             let mut c = p_case(t)?;
             Ok(o_gas(&mut c))
